@@ -228,7 +228,9 @@ func rotationOf(v ssa.Value) (int64, bool) {
 	return 0, false
 }
 
-func c14lookup3(c *Ctx, r *Result) {
+func c14lookup3(c *Ctx, r *Result) { lookup3Rule(c, r, "C14.7") }
+
+func lookup3Rule(c *Ctx, r *Result, rule string) {
 	fn := c.Fn(r, "structures.jenkinsHash")
 	if fn == nil {
 		return
@@ -244,7 +246,7 @@ func c14lookup3(c *Ctx, r *Result) {
 		}
 	}
 	if hdr == nil {
-		r.Viol("C14.7", name+"#block-loop", c.Pos(fn.Pos()), "no block loop found")
+		r.Viol(rule, name+"#block-loop", c.Pos(fn.Pos()), "no block loop found")
 		return
 	}
 	loop := naturalLoop(hdr)
@@ -271,7 +273,7 @@ func c14lookup3(c *Ctx, r *Result) {
 		}
 		_ = ifi
 	}
-	r.Check(okLoop, "C14.7", name+"#blocks-mixed-only-while-more-than-12-bytes-remain", c.InstrPos(hdr.Instrs[len(hdr.Instrs)-1]), "the block loop continues exactly when len(name) - i > 12 (a trailing block of exactly 12 bytes belongs to the tail, as in lookup3)")
+	r.Check(okLoop, rule, name+"#blocks-mixed-only-while-more-than-12-bytes-remain", c.InstrPos(hdr.Instrs[len(hdr.Instrs)-1]), "the block loop continues exactly when len(name) - i > 12 (a trailing block of exactly 12 bytes belongs to the tail, as in lookup3)")
 	// (b) tail arms 1..12 and a zero arm that returns before the final mix
 	arms := map[int64]*ssa.BasicBlock{}
 	for _, b := range fn.Blocks {
@@ -296,7 +298,7 @@ func c14lookup3(c *Ctx, r *Result) {
 			missing += " " + itoa64(k)
 		}
 	}
-	r.Check(missing == "", "C14.7", name+"#tail-handles-1-to-12-bytes", c.Pos(fn.Pos()), "the tail switch has an arm for every remaining length 1..12 (missing:"+missing+")")
+	r.Check(missing == "", rule, name+"#tail-handles-1-to-12-bytes", c.Pos(fn.Pos()), "the tail switch has an arm for every remaining length 1..12 (missing:"+missing+")")
 	// rotations
 	var mixRot, finRot []int64
 	var zeroArmReturns bool
@@ -313,7 +315,7 @@ func c14lookup3(c *Ctx, r *Result) {
 			zeroArmReturns = !hasRot
 		}
 	}
-	r.Check(zeroArmReturns, "C14.7", name+"#zero-remaining-returns-before-final-mix", c.Pos(fn.Pos()), "zero remaining bytes (the empty name) return c without the final mix")
+	r.Check(zeroArmReturns, rule, name+"#zero-remaining-returns-before-final-mix", c.Pos(fn.Pos()), "zero remaining bytes (the empty name) return c without the final mix")
 	order := map[*ssa.BasicBlock]int{}
 	for i, b := range fn.DomPreorder() {
 		order[b] = i
@@ -353,9 +355,9 @@ func c14lookup3(c *Ctx, r *Result) {
 		}
 		return strings.Join(s, ",")
 	}
-	r.Check(eq(mixRot, []int64{4, 6, 8, 16, 19, 4}), "C14.7", name+"#mix-rotations", c.Pos(fn.Pos()), "block mix rotates by "+str(mixRot)+" (lookup3: 4,6,8,16,19,4)")
-	r.Check(eq(finRot, []int64{14, 11, 25, 16, 4, 14, 24}), "C14.7", name+"#final-rotations", c.Pos(fn.Pos()), "final mix rotates by "+str(finRot)+" (lookup3: 14,11,25,16,4,14,24)")
-	r.Floor("C14.7", 5)
+	r.Check(eq(mixRot, []int64{4, 6, 8, 16, 19, 4}), rule, name+"#mix-rotations", c.Pos(fn.Pos()), "block mix rotates by "+str(mixRot)+" (lookup3: 4,6,8,16,19,4)")
+	r.Check(eq(finRot, []int64{14, 11, 25, 16, 4, 14, 24}), rule, name+"#final-rotations", c.Pos(fn.Pos()), "final mix rotates by "+str(finRot)+" (lookup3: 14,11,25,16,4,14,24)")
+	r.Floor(rule, 5)
 }
 
 // reaches: does the operand graph of v (arithmetic, conversions, call arguments, phis, extracts) contain root?
@@ -606,4 +608,9 @@ func init() {
 			r.Hold("C02.9", "structures#no-conditional-write-back", "", "the write-back of the dense structures is not conditional on a flag")
 		}
 	})
+}
+
+func init() {
+	registry["C05"].Meta.Rules["C05.12"] = "names are hashed as the reference library hashes them (the hash is stored in the name index records and recomputed by other readers): " + registry["C14"].Meta.Rules["C14.7"] + " (shared with C14.7)"
+	registry["C05"].Rules = append(registry["C05"].Rules, func(c *Ctx, r *Result) { lookup3Rule(c, r, "C05.12") })
 }
